@@ -816,6 +816,7 @@ func Run(ctx *core.Ctx) {
 			ctx.Logf("password probes")
 			r.passwordProbes(password)
 			r.runtimePasswordProbe(password)
+			r.readonlySwitchProbe()
 			r.partialSyncProbe()
 			ctx.Logf("protected mode probes")
 			r.protectedProbes(password)
